@@ -22,19 +22,53 @@ pub enum RoundTrip {
     Objects(Vec<(ObjectId, String)>),
 }
 
+/// What a reader recovered from a file (lopdf's loader or the strict reader).
+pub struct View {
+    pub version: String,
+    pub objects: BTreeMap<ObjectId, Object>,
+    pub trailer: Dictionary,
+}
+
+pub type Reader = fn(&[u8], &Document) -> Result<View, String>;
+
+pub fn lopdf_reader(bytes: &[u8], _orig: &Document) -> Result<View, String> {
+    util::load(bytes).map(|d| View { version: d.version, objects: d.objects, trailer: d.trailer })
+}
+
+/// Strict reader; the binary comment is required whenever the document has a non-empty mark.
+pub fn strict_reader(bytes: &[u8], orig: &Document) -> Result<View, String> {
+    let opts = crate::strict::Options { require_binary_mark: orig.binary_mark.len() >= 4 };
+    let d = util::guard(|| crate::strict::read(bytes, &opts)).map_err(|p| format!("strict reader bug: {}", p))??;
+    if d.bytes_accounted != bytes.len() {
+        return Err(format!("strict reader accounted for {} of {} bytes", d.bytes_accounted, bytes.len()));
+    }
+    if let Some(m) = &d.binary_mark {
+        if *m != orig.binary_mark {
+            return Err(format!("binary comment {:?} differs from the document's mark {:?}", m, orig.binary_mark));
+        }
+    } else {
+        return Err("binary comment line missing".into());
+    }
+    Ok(View { version: d.version, objects: d.objects, trailer: d.trailer })
+}
+
 pub fn roundtrip(doc: &Document, table: bool) -> RoundTrip {
+    roundtrip_with(doc, table, lopdf_reader)
+}
+
+pub fn roundtrip_with(doc: &Document, table: bool, reader: Reader) -> RoundTrip {
     let bytes = match util::save_bytes(doc, table) {
         Ok(b) => b,
         Err(e) => return RoundTrip::DocLevel(e),
     };
-    let loaded = match util::load(&bytes) {
+    let loaded = match reader(&bytes, doc) {
         Ok(d) => d,
         Err(e) => return RoundTrip::DocLevel(e),
     };
     compare_loaded(doc, &loaded)
 }
 
-pub fn compare_loaded(doc: &Document, loaded: &Document) -> RoundTrip {
+pub fn compare_loaded(doc: &Document, loaded: &View) -> RoundTrip {
     if doc.version != loaded.version {
         return RoundTrip::DocLevel(format!("version: expected {:?} got {:?}", doc.version, loaded.version));
     }
@@ -64,22 +98,26 @@ pub fn compare_loaded(doc: &Document, loaded: &Document) -> RoundTrip {
 /// are re-checked alone (single-object document) before they are reported, so a report never
 /// depends on its neighbours in the batch.
 pub fn check_items(items: &[Object], table: bool) -> Vec<(usize, String)> {
+    check_items_with(items, table, lopdf_reader)
+}
+
+pub fn check_items_with(items: &[Object], table: bool, reader: Reader) -> Vec<(usize, String)> {
     let mut out = vec![];
-    check_range(items, 0, items.len(), table, &mut out);
+    check_range(items, 0, items.len(), table, reader, &mut out);
     out
 }
 
-fn check_range(items: &[Object], lo: usize, hi: usize, table: bool, out: &mut Vec<(usize, String)>) {
+fn check_range(items: &[Object], lo: usize, hi: usize, table: bool, reader: Reader, out: &mut Vec<(usize, String)>) {
     if lo >= hi {
         return;
     }
     let doc = doc_of_items(&items[lo..hi], table);
-    match roundtrip(&doc, table) {
+    match roundtrip_with(&doc, table, reader) {
         RoundTrip::Objects(fails) => {
             for (id, _msg) in fails {
                 let idx = lo + id.0 as usize - 1;
                 if idx < hi {
-                    if let Some(m) = check_single(&items[idx], table) {
+                    if let Some(m) = check_single_with(&items[idx], table, reader) {
                         out.push((idx, m));
                     }
                 } else {
@@ -92,8 +130,8 @@ fn check_range(items: &[Object], lo: usize, hi: usize, table: bool, out: &mut Ve
                 out.push((lo, msg));
             } else {
                 let mid = (lo + hi) / 2;
-                check_range(items, lo, mid, table, out);
-                check_range(items, mid, hi, table, out);
+                check_range(items, lo, mid, table, reader, out);
+                check_range(items, mid, hi, table, reader, out);
             }
         }
     }
@@ -101,8 +139,12 @@ fn check_range(items: &[Object], lo: usize, hi: usize, table: bool, out: &mut Ve
 
 /// Round-trip one item alone; Some(message) if it fails.
 pub fn check_single(item: &Object, table: bool) -> Option<String> {
+    check_single_with(item, table, lopdf_reader)
+}
+
+pub fn check_single_with(item: &Object, table: bool, reader: Reader) -> Option<String> {
     let doc = doc_of_items(std::slice::from_ref(item), table);
-    match roundtrip(&doc, table) {
+    match roundtrip_with(&doc, table, reader) {
         RoundTrip::DocLevel(m) => Some(m),
         RoundTrip::Objects(f) => f.into_iter().next().map(|x| x.1),
     }
@@ -110,15 +152,14 @@ pub fn check_single(item: &Object, table: bool) -> Option<String> {
 
 /// Whole-document check with full diff (used for file-level dimensions).
 pub fn check_doc(doc: &Document, table: bool) -> Option<String> {
-    let bytes = match util::save_bytes(doc, table) {
-        Ok(b) => b,
-        Err(e) => return Some(e),
-    };
-    let loaded = match util::load(&bytes) {
-        Ok(d) => d,
-        Err(e) => return Some(e),
-    };
-    cmp::diff_docs(doc, &loaded)
+    check_doc_with(doc, table, lopdf_reader)
+}
+
+pub fn check_doc_with(doc: &Document, table: bool, reader: Reader) -> Option<String> {
+    match roundtrip_with(doc, table, reader) {
+        RoundTrip::DocLevel(m) => Some(m),
+        RoundTrip::Objects(f) => f.into_iter().next().map(|x| x.1),
+    }
 }
 
 pub fn dict(entries: Vec<(&[u8], Object)>) -> Dictionary {
